@@ -97,6 +97,7 @@ let show_traits ?id t = match t with
     Printf.sprintf "T:%d:%s%s%s" (int_of_n t.ti_size) (b01 t.ti_init) (b01 t.ti_fini)
       (match t.ti_tag, id with
        | None, _ -> ""
+       | Some g, _ when int_of_n g >= 100000 -> ""     (* static object of a template instantiation (tpl cases) *)
        | Some g, None -> ":g" ^ string_of_int (int_of_n g)
        | Some g, Some i -> ":d" ^ string_of_int (int_of_n g - i))
 let show_named e =
@@ -194,10 +195,65 @@ let rec lives pops = match pops with
 
 let ops_of pops = List.concat (List.map (fun p -> match p with One o -> [o] | Rep l -> l | Fin -> []) pops)
 
+(* ---- cases with the marker "tpl": the template layer of types.h (TplModel.v), see harness/c06_tpl.cpp ---- *)
+type tpop = TOne of top | TRep of top list | TTab
+let rec tparse toks = match toks with
+  | [] -> []
+  | "tpl" :: r -> tparse r
+  | "pi" :: k :: ob :: r -> TOne (TId (nat_of_int (int_of_tok k), ob <> "0")) :: tparse r
+  | "pt" :: k :: r -> TOne (TTraits (nat_of_int (int_of_tok k))) :: tparse r
+  | "pb" :: i :: r -> TOne (TBasetype (n_of_tok i)) :: tparse r
+  | "pv" :: v :: r -> TOne (TToVector (z_of_int (int_of_tok v))) :: tparse r
+  | "ps" :: v :: r -> TOne (TToScalar (z_of_int (int_of_tok v))) :: tparse r
+  | "px" :: k :: r -> TOne (TBehave (nat_of_int (int_of_tok k))) :: tparse r
+  | "tb" :: r -> TTab :: tparse r
+  | _ ->
+    (* one operation of the wrappers: parse exactly one *)
+    let arity = (match List.hd toks with "ga" when List.nth toks 1 = "null" -> 1 | "gaN" | "ga" | "ln" -> 2 | _ -> 1) in
+    let (a, b) = take_toks (arity + 1) toks in
+    (match parse a with
+     | [One o] -> let rest = tparse b in TOne (TBase o) :: rest
+     | [Rep l] -> let rest = tparse b in TRep (List.map (fun o -> TBase o) l) :: rest
+     | _ -> failwith "bad tpl op")
+and take_toks n l = if n = 0 then ([], l) else match l with x :: r -> let (a, b) = take_toks (n - 1) r in (x :: a, b) | [] -> ([], [])
+
+let rel_tok r = match r with RSame -> "c" | RDiff -> "d" | RNoId -> "u"
+let show_tout sh shrep ~refcode pop outs = match pop, outs with
+  | TOne (TBase _), [TOut x] -> sh x
+  | TRep _, _ -> shrep (List.filter_map (fun o -> match o with TOut x -> Some x | _ -> None) outs)
+  | TOne (TId _), [TInt z] -> Printf.sprintf "I:%x" (int_of_z z)
+  | TOne (TId _), [TRef c] -> if refcode then Printf.sprintf "R:%d" (int_of_z c) else "R"
+  | TOne (TTraits _), [TTr (t, r)] ->
+    (match t with
+     | None -> "N:" ^ rel_tok r
+     | Some t -> Printf.sprintf "T:%d:%s%s:%s" (int_of_n t.ti_size) (b01 t.ti_init) (b01 t.ti_fini) (rel_tok r))
+  | TOne _, [TInt z] -> Printf.sprintf "V:%d" (int_of_z z)
+  | _ -> "?"
+let table_tok () =
+  "B:" ^ String.concat "," (List.map (fun s -> match s with
+    | TFixed (_, sz) -> string_of_int (int_of_n sz)
+    | TGen t | TSpanC (_, t) -> string_of_int (int_of_n t.ti_size)) g_slots)
+let trender sh shrep ~refcode pops outs =
+  let rec go pops outs = match pops with
+    | [] -> []
+    | TTab :: r -> table_tok () :: go r outs
+    | (TOne _ as p) :: r -> (match outs with o :: outs -> show_tout sh shrep ~refcode p [o] :: go r outs | [] -> ["<none>"])
+    | (TRep l as p) :: r -> let (a, b) = take (List.length l) outs in show_tout sh shrep ~refcode p a :: go r b
+  in go pops outs
+let tops_of pops = List.concat (List.map (fun p -> match p with TOne o -> [o] | TRep l -> l | TTab -> []) pops)
+
 let () =
   let ic = open_in Sys.argv.(1) in
   List.iter (fun line ->
     match split_ws line with
+    | id :: "tpl" :: toks ->
+      tag := 0; cxx := true;
+      let pops = tparse toks in
+      let ops = tops_of pops in
+      let mtoks = trender show show_rep ~refcode:true pops (mtrun (t0 reg0) ops) in
+      let stoks = trender show_s show_rep_s ~refcode:false pops (strun (t0 sreg0) ops) in
+      Printf.printf "M %s %s\n" id (String.concat " " mtoks);
+      Printf.printf "S %s %s\n" id (String.concat " " stoks)
     | id :: toks ->
       tag := 0; cxx := false;
       let pops = parse toks in
